@@ -70,4 +70,60 @@ PROPS = {
         "tags": {1: "RowsByCondition vs model with pre-filter", 2: "RowsByCondition vs declarative filter", 3: "error for well-typed conditions", 5: "generator produced an ill-typed condition"},
         "assumptions": ["conditions are well typed for their column", "the cache state satisfies the C05 invariant (schema-indexed values unique)"],
     },
+    "C03": {
+        "mismatch_is_violation": True,
+        "level_text": ("The engine model Db/Txn.v is the executable reference model of RFC 7047 5.1-5.2 the property asks for; Props/C03.v (axiom-free) shows it says what "
+                       "the RFC says: select = exactly the matching rows, update/mutate/delete transform exactly the matching rows and count them, insert stores the "
+                       "default-filled row under the reported uuid, later operations see earlier ones (exec_ops over ops1++ops2), every mutator's effect on integers, "
+                       "sets and maps, domain error on division by zero, immutable columns never change. Tied to the code by executing generated transaction histories "
+                       "on the real in-memory database (operations through JSON, Transact, Commit) and comparing every result, the whole database and the reference "
+                       "index after every transaction; a disagreement is itself the property's failure (replay = the history)."),
+        "level_note": ("Trusted: Coq kernel + vm_compute, std++; Go harness; the model is hand-written. Known deviations from the RFC kept in the model as the code behaves "
+                       "and reported as KNOWN-FINDING: arithmetic mutators on set columns and any mutation of an optional column are rejected. Integers beyond 2^53, "
+                       "integer overflow and non-finite reals are outside the model. Operations built through the client model API are not yet covered."),
+        "rule": ("histories of 1..6 (thorough ..10) transactions of 1..4 (..6) operations over a 22-column table of all kinds plus a second table: insert/select/update/"
+                 "mutate/delete/wait(0), conditions biased to hit stored values, 5% deliberately failing operations. Non-trivial: the transaction commits and some "
+                 "operation inserts, changes or returns >= 1 row."),
+        "tags": {1: "operation results", 2: "database contents after the transaction", 3: "reference index (GetReferences)"},
+        "assumptions": ["values respect the column types (ill-typed ones are a separate 5% stream expected to fail)", "wait has timeout 0"],
+    },
+    "C02": {
+        "level_text": ("Theorems (Props/C02.v, axiom-free) over the engine model: the reply has exactly one of the three legal shapes; any error result means the database "
+                       "is unchanged; a later transaction behaves as if the failed one had never been submitted; the transaction commits iff no result is an error. What "
+                       "makes this hold or fail in Go is aliasing between the transaction's scratch state and the committed state, which a pure model cannot express: "
+                       "that half is the correspondence check - the whole database and the reference index are read before and after every (45% failing) transaction."),
+        "level_note": ("Trusted: Coq kernel + vm_compute, std++; Go harness. Monitors are not part of this check (C07 covers notifications). The database's internal indexes "
+                       "are observed through the follow-up transactions of the same history, not directly."),
+        "rule": ("histories of 1..6 transactions of 1..5 operations on a schema with strong/weak references (min 1), unique indexes and an immutable column; 45% of the "
+                 "transactions contain a failing operation (unsupported op, ill-typed value, rejected mutation, timed-out wait, duplicate uuid, immutable column) at a "
+                 "random position, 12% of references dangle. Non-trivial: the failing operation is not the first and an earlier one changed a row."),
+        "tags": {1: "operation results", 2: "database contents after the transaction", 3: "reference index (GetReferences)"},
+        "assumptions": [],
+    },
+    "C06": {
+        "level_text": ("Theorems (Props/C06.v, axiom-free): uniqueness of every schema index is preserved by every committed transaction and every history; a transaction "
+                       "whose final state has a duplicate gets a constraint violation appended; acceptance depends on the final state only (transient duplicates between "
+                       "operations are irrelevant). Tied to the code by histories biased to collisions, swaps, delete+reinsert and garbage collection of indexed rows."),
+        "level_note": "Trusted: Coq kernel + vm_compute, std++; Go harness incl. its duplicate scan used as direct oracle.",
+        "rule": ("histories of 1..8 (thorough ..14) transactions on tables with a single-column and a two-column index plus an indexed non-root table; values from pools of "
+                 "3; 30% of the transactions swap the indexed values of two rows or delete a row and insert its values elsewhere. Non-trivial: an index value is written "
+                 "by >= 2 operations of one transaction."),
+        "tags": {1: "operation results", 2: "database contents after the transaction", 3: "reference index (GetReferences)"},
+        "assumptions": [],
+    },
+    "C04": {
+        "level_text": ("Theorems (Props/C04.v, axiom-free) over Db/Refs.v, where references are recomputed from the rows: a dangling strong reference in the candidate state "
+                       "rejects the transaction; every committed state, after every history, is stable under one more round of garbage collection and weak-reference "
+                       "pruning (no unreferenced non-root row, no weak reference to a missing row, minimum sizes respected); only the named rejection classes arise. "
+                       "Because the model has no reference index at all, its decisions depend on the stored rows only; that the implementation's incrementally tracked "
+                       "index equals the recomputed one is checked after every transaction (GetReferences of every row). 'No dangling strong reference after GC/pruning' "
+                       "is proved only for the candidate-state check - preservation through the rounds is not yet a theorem (correspondence + Go oracle cover it)."),
+        "level_note": ("Trusted: Coq kernel + vm_compute, std++; Go harness incl. its from-scratch recomputation of integrity and references. The order of steps follows "
+                       "ovsdb-server and the code: strong check on the candidate state before collection; per round one collection level then weak pruning."),
+        "rule": ("random schemas of 2..4 tables (root/non-root) with 1..3 reference columns each: strong/weak, optional, set (min 0/1), map key, map value, both; self "
+                 "references, cycles, chains; histories of 1..8 (thorough ..14) transactions adding/moving/removing references and referenced rows, 8% dangling. "
+                 "Non-trivial: the transaction is rejected at commit time or commits with rows collected / references pruned."),
+        "tags": {1: "operation results", 2: "database contents after the transaction", 3: "reference index (GetReferences)"},
+        "assumptions": [],
+    },
 }
